@@ -2431,7 +2431,8 @@ func getRedis(r *Redis) (Node, error) {
 
 // 判断错误是否可接受。
 func acceptable(err error) bool {
-	return err == nil || err == red.Nil || err == context.Canceled
+	// 取消发生在拨号阶段时，go-redis 返回的是包着取消原因的 *net.OpError，而不是 context.Canceled 本身
+	return err == nil || err == red.Nil || errors.Is(err, context.Canceled)
 }
 
 // 将 redis 返回的有序集合转为 Pair
